@@ -19,4 +19,12 @@ CHECKS = {
              "byte-for-byte with the real builders and the real bytes are decoded by the same doc-derived decoder on every run.",
         note=COMMON_NOTE + "Floats are opaque bit patterns; float64->float32 narrowing of summary values is Go's and not modelled.",
     ),
+    "C18": dict(
+        text="Refinement proof: the raw region holds the last cap bytes of the logical write stream (Rep invariant, split-at-wrap copies "
+             "transcribed); Read returns exactly the next window; for every cap>=2 and every op sequence the concatenated reads are the "
+             "accepted stream restricted to non-discarded positions (prefix when no discard), ReadMultipleOf returns multiples, DiscardStride "
+             "lands on a stride boundary. The forward-discard hypothesis is shown necessary by a proved counterexample, which is the recorded "
+             "known finding. Model compared op-by-op with the real shared-memory RingBuffer each run.",
+        note=COMMON_NOTE + "Pointers are unbounded naturals; shm/mmap trusted; chunk/stride 0 excluded (Go divides by zero).",
+    ),
 }
